@@ -329,6 +329,15 @@ fn closed_conns() -> std::collections::HashSet<u64> {
     LOG.lock().unwrap().iter().filter(|e| e[1] == "S" && e[3] == "CLOSE").filter_map(|e| e[2].as_u64()).collect()
 }
 
+/// the connections a wait_closed operation waits for: an explicit list, or every connection the server
+/// has accepted up to now
+fn wanted_conns(op: &Value) -> Vec<u64> {
+    match op["conns"].as_array() {
+        Some(a) => a.iter().filter_map(|x| x.as_u64()).collect(),
+        None => LOG.lock().unwrap().iter().filter(|e| e[1] == "S" && e[3] == "ACCEPT").filter_map(|e| e[2].as_u64()).collect(),
+    }
+}
+
 fn op_log(who: &str, idx: usize, phase: &str, op: &Value, res: Value) {
     log(vec![json!("O"), json!(who), json!(idx), json!(phase), op.clone(), res]);
 }
@@ -365,7 +374,7 @@ fn sync_op(tr: &Mutex<Option<SmtpTransport>>, who: &str, idx: usize, op: &Value)
             json!({"reached": ok, "debug": debug_count(&format!("{t:?}"))})
         }
         ("wait_closed", _) => {
-            let want: Vec<u64> = op["conns"].as_array().map(|a| a.iter().filter_map(|x| x.as_u64()).collect()).unwrap_or_default();
+            let want: Vec<u64> = wanted_conns(op);
             let ok = wait_until(op["ms"].as_u64().unwrap_or(3000), || { let c = closed_conns(); want.iter().all(|k| c.contains(k)) });
             json!({"reached": ok})
         }
@@ -405,7 +414,7 @@ async fn tokio_op(tr: &Mutex<Option<AsyncSmtpTransport<Tokio1Executor>>>, who: &
             json!({"reached": ok, "debug": debug_count(&format!("{t:?}"))})
         }
         ("wait_closed", _) => {
-            let want: Vec<u64> = op["conns"].as_array().map(|a| a.iter().filter_map(|x| x.as_u64()).collect()).unwrap_or_default();
+            let want: Vec<u64> = wanted_conns(op);
             let deadline = Instant::now() + Duration::from_millis(op["ms"].as_u64().unwrap_or(3000));
             let mut ok = false;
             loop {
@@ -480,6 +489,7 @@ pub fn run_scenario(sc: &Value) -> Value {
     {
         let pool = sc["pool"].clone();
         let kind = kind.clone();
+        let srv2 = srv.clone();
         std::thread::spawn(move || {
             let r = std::panic::catch_unwind(std::panic::AssertUnwindSafe(|| {
                 if kind == "tokio" {
@@ -499,8 +509,17 @@ pub fn run_scenario(sc: &Value) -> Value {
                         for h in hs { let _ = h.await; }
                         for (j, op) in after.iter().enumerate() { tokio_op(&tr, "main", j, op).await; }
                         *tr.lock().unwrap() = None;
-                        // recycling happens in spawned tasks: give them a moment before the runtime goes away
-                        tokio::time::sleep(Duration::from_millis(30)).await;
+                        log(vec![json!("C"), json!("dropped")]);
+                        // the last handle is gone while the runtime is still alive: recycling and the pool's own
+                        // clean-up run in spawned tasks; every socket must be closed soon (generous deadline)
+                        let deadline = Instant::now() + Duration::from_millis(2500);
+                        let mut ok = false;
+                        loop {
+                            if srv2.open.load(Ordering::SeqCst) == 0 { ok = true; break; }
+                            if Instant::now() > deadline { break; }
+                            tokio::time::sleep(Duration::from_millis(2)).await;
+                        }
+                        log(vec![json!("C"), json!("census_live"), json!({"all_closed": ok, "open_sockets": srv2.open.load(Ordering::SeqCst)})]);
                     });
                     rt.shutdown_timeout(Duration::from_millis(500));
                 } else {
@@ -518,6 +537,7 @@ pub fn run_scenario(sc: &Value) -> Value {
                     for h in hs { let _ = h.join(); }
                     for (j, op) in after.iter().enumerate() { sync_op(&tr, "main", j, op); }
                     *tr.lock().unwrap() = None;
+                    log(vec![json!("C"), json!("dropped")]);
                 }
             }));
             let _ = tx.send(r.is_ok());
@@ -528,7 +548,6 @@ pub fn run_scenario(sc: &Value) -> Value {
         Ok(false) => "PANIC",
         Err(_) => "HANG",
     };
-    log(vec![json!("C"), json!("dropped")]);
     // after the last handle is gone: every socket closed, the worker thread gone (generous deadline)
     let all_closed = wait_until(3000, || srv.open.load(Ordering::SeqCst) == 0);
     let workers_gone = wait_until(3000, || worker_threads() <= threads_before);
